@@ -146,7 +146,7 @@ pub fn after_step(w: &World, out: &StepOutcome, obs: &mut Obs) {
 
 /// (b) on the liquidity pool with token deltas.
 pub fn probe_round_trip(w: &World, long_delta: i128, short_delta: i128, obs: &mut Obs) {
-    let mut f = w.clone();
+    let mut f = w.fork();
     let prices = f.prices;
     let pl = mid(prices.long_token_price.min, prices.long_token_price.max);
     let ps = mid(prices.short_token_price.min, prices.short_token_price.max);
@@ -192,7 +192,7 @@ pub fn probe_position_round_trip(w: &World, pos: u8, size_usd: u128, obs: &mut O
     if size == 0 {
         return;
     }
-    let mut f = w.clone();
+    let mut f = w.fork();
     let (r, _, _, _) = f.run_tx(0, |w, _| {
         let mut p = w.positions[idx];
         let (is_long, coll_long) = (p.is_long, p.is_collateral_token_long);
